@@ -22,6 +22,7 @@ import EaselModel.Msa.LemmasPk4
 import EaselModel.Msa.LemmasPk5
 import EaselModel.Msa.LemmasFrag2
 import EaselModel.Msa.LemmasRc
+import EaselModel.Msa.LemmasWuss3
 /-! # C15 — alignment transformations keep the alignment well formed and the residues intact; WUSS round trips
 
 Property theorems only; proofs are glue on the lemmas of `EaselModel/Msa/Lemmas*.lean`.
@@ -753,6 +754,41 @@ theorem wussFull_nopk (ss : Bytes) (hnl : ∀ c ∈ ss, isAlpha c = false) (ct :
     ∃ full, wussFull ss = .ok full ∧ full.length = ss.length ∧ wuss2ct full = some ct :=
   wussFull_nopk' ss hnl ct h
 
+/-- WHAT `esl_wuss2ct` RETURNS, COMPLETELY: `eslOK` with table `ct` IF AND ONLY IF `ct` is a symmetric pair table over
+    `1..len` and the string is a class-nested labelling of it: unpaired positions carry unpaired symbols, every pair a
+    bracket pair or an upper/lower-case letter pair, and pairs that share a stack (all brackets; one letter) never cross.
+    (So the table is unique, and `wuss2ct_of_class_labels` / `ct2wuss_is_class_labelling` are exact converses.) -/
+theorem wuss2ct_iff_class_labelling (ss : Bytes) (ct : List Nat) :
+    wuss2ct ss = some ct ↔ (CtOk ss.length ct ∧ ClassLabels ct ss ∧ ClassNested ct ss) :=
+  ⟨fun h => ⟨wuss2ct_ctOk ss ct h, wuss2ct_class_labels ss ct h⟩, fun ⟨a, b, c⟩ => wuss2ct_of_class_labels' ss ct a c b⟩
+
+/-- `esl_wuss_reverse` MIRRORS THE PAIR SET of every balanced WUSS string (pseudoknot letters included): the reversed
+    string is balanced and position `p` pairs with `len+1-q` exactly when `len+1-p` paired with `q` in the original -/
+theorem wussReverse_pairs (ss : Bytes) (ct : List Nat) (h : wuss2ct ss = some ct) :
+    wuss2ct (wussReverse ss) = some (mirrorCt ss.length ct) ∧
+    ∀ p, 1 ≤ p → p ≤ ss.length → (mirrorCt ss.length ct).getD p 0 =
+      if ct.getD (ss.length + 1 - p) 0 = 0 then 0 else ss.length + 1 - ct.getD (ss.length + 1 - p) 0 := by
+  refine ⟨wussReverse_pairs' ss ct h, fun p h1 h2 => ?_⟩
+  rw [mirrorCt_getD, if_neg (by omega)]
+
+/-- hence after `esl_msa_ReverseComplement` SS_cons and EVERY per-sequence SS are still balanced WUSS strings, and their
+    pairs are exactly the original pairs mirrored (column `c` <-> column `alen+1-c`) -/
+theorem reverseComplement_ss_pairs (a : Abc) (compl : List UInt8) (m : Msa) (wf : m.WF) (hd : m.isDigital = true)
+    (habc : m.abc = some a) (hcompl : a.complement = some compl) :
+    (∀ ss ct, m.ss_cons = some ss → wuss2ct ss = some ct →
+      ∃ ss2, (reverseComplement m).msa.ss_cons = some ss2 ∧ wuss2ct ss2 = some (mirrorCt m.alen ct)) ∧
+    (∀ (i : Nat) s ct, m.ss[i]? = some (some s) → wuss2ct s = some ct →
+      ∃ s2, (reverseComplement m).msa.ss[i]? = some (some s2) ∧ wuss2ct s2 = some (mirrorCt m.alen ct)) := by
+  have hr : reverseComplement m = { msa := rcMsa compl m, st := .ok } := by simp [reverseComplement, hd, habc, hcompl]
+  rw [hr]
+  constructor
+  · intro ss ct hss h
+    have hlen : ss.length = m.alen := (wf.ss_cons_ok ss hss).1
+    exact ⟨wussReverse ss, by simp [rcMsa, hss], by rw [← hlen]; exact wussReverse_pairs' ss ct h⟩
+  · intro i s ct hs h
+    have hlen : s.length = m.alen := (wf.ss_ok (some s) (List.mem_of_getElem? hs) s rfl).1
+    exact ⟨wussReverse s, by simp [rcMsa, hs], by rw [← hlen]; exact wussReverse_pairs' s ct h⟩
+
 /-- `esl_wuss_reverse` is an involution on every string -/
 theorem wussReverse_involutive (ss : Bytes) : wussReverse (wussReverse ss) = ss :=
   wussReverse_wussReverse ss
@@ -1301,5 +1337,8 @@ example : (reverseComplement exPk).st = .ok ∧ (reverseComplement exPk).msa.row
     (reverseComplement exPk).msa.ss_cons = some [0x2e, 0x41, 0x3c, 0x61, 0x3e] := by decide
 
 example : (ct2simplewuss [0, 3, 4, 1, 2]).toOption = some [0x3c, 0x41, 0x3e, 0x61] := by decide
+
+example : wuss2ct (wussReverse [0x3c, 0x41, 0x3e, 0x61, 0x2e]) = some (mirrorCt 5 [0, 3, 4, 1, 2, 0]) ∧
+    mirrorCt 5 [0, 3, 4, 1, 2, 0] = [0, 0, 4, 5, 2, 3] := by decide
 
 end EaselModel.Props.C15
